@@ -566,6 +566,7 @@ func provloopsExtra(t *tr) string {
 		}
 		// loadAmmo: what Run gets when the preload failed; which ammo are kept
 		b.WriteString(provloopsHTTPLoad(t, t.pkg))
+		b.WriteString(provloopsAcquire(t, t.pkg, "Provider", "p.Sink", "Http", "components/providers/http/provider/provider.go"))
 	}
 	// ------------------------------------------------------------ components/providers/http (NewProvider)
 	{
@@ -632,6 +633,7 @@ func provloopsExtra(t *tr) string {
 			}
 			fmt.Fprintf(&b, "/-- regenerated from `components/providers/scenario/provider.go` Run: the deferred function closes the sink (%v) and maps the result -/\ndef scenarioRunCloses : Bool := %v\ndef scenarioRunMap (errV : RunRes) : RunRes :=\n%s\n\n", ch == "p.sink", ch == "p.sink", mapping)
 		}
+		b.WriteString(provloopsAcquire(t, p, "Provider", "p.sink", "Scenario", "components/providers/scenario/provider.go"))
 		for _, sub := range []struct{ path, name string }{{"github.com/yandex/pandora/components/providers/scenario/http", "chanCapHttpScenario"}, {"github.com/yandex/pandora/components/providers/scenario/grpc", "chanCapGrpcScenario"}} {
 			sp := load(sub.path)
 			sx := &provloopsPl{t: t, pkg: sp, ctx: sub.path, vars: map[string]string{}}
@@ -663,6 +665,7 @@ func provloopsExtra(t *tr) string {
 			}
 			fmt.Fprintf(&b, "/-- regenerated from `components/providers/grpc/provider.go` Run: `defer close(p.Sink)`, result = result of start -/\ndef grpcRunCloses : Bool := %v\n\n", ch == "p.Sink")
 		}
+		b.WriteString(provloopsAcquire(t, p, "Provider", "p.Sink", "Grpc", "components/providers/grpc/provider.go"))
 		gp := load("github.com/yandex/pandora/components/providers/grpc/grpcjson")
 		gx := &provloopsPl{t: t, pkg: gp, ctx: "grpcjson.start"}
 		gx.requireMin0("Config", "Limit", "Passes")
@@ -698,6 +701,7 @@ func provloopsExtra(t *tr) string {
 			def = x.fail(p.Syntax[0], "DefaultAmmoQueueConfig().AmmoQueueSize is not a constant")
 		}
 		fmt.Fprintf(&b, "/-- regenerated from `core/provider/queue.go` DefaultAmmoQueueConfig -/\ndef defaultAmmoQueueSize : Nat := %s\n\n", def)
+		b.WriteString(provloopsAcquire(t, p, "AmmoQueue", "p.OutQueue", "Queue", "core/provider/queue.go"))
 		if fd := provloopsMethod(p, "DecodeProvider", "Run"); fd == nil {
 			t.errs = append(t.errs, "provloops: (*DecodeProvider).Run not found")
 		} else {
@@ -758,13 +762,52 @@ func provloopsExtra(t *tr) string {
 
 // replayLoop: runPreloaded / scenario Run: the statements before the loop and the loop body.
 func (x *provloopsPl) replayLoop(fd *ast.FuncDecl, name, passes, limit, ammos, sink string) string {
-	x.vars = map[string]string{
-		passes: "passes", limit: "limit", "ammoNum": "ammoNum", "passNum": "passNum", "length": "length", "i": "i",
-		"uint(len(" + ammos + "))": "length",
-	}
 	loop := provloopsForBody(fd)
 	if loop == nil || loop.Cond != nil || loop.Init != nil || loop.Post != nil {
 		return x.fail(fd, "no plain `for { … }` loop")
+	}
+	// the locals by their role, whatever they are called: the two counters start as uint(0) before the loop, the one the
+	// loop increments is ammoNum; `length` is uint(len(ammos)); `i` is the local defined as a remainder in the loop
+	goAmmoNum, goPassNum, goLength, goI := "ammoNum", "passNum", "length", "i"
+	var zeroed []string
+	for _, s := range fd.Body.List {
+		if s == ast.Stmt(loop) {
+			break
+		}
+		if as, ok := s.(*ast.AssignStmt); ok && as.Tok == token.DEFINE && len(as.Lhs) == 1 && len(as.Rhs) == 1 {
+			switch x.src(as.Rhs[0]) {
+			case "uint(0)":
+				zeroed = append(zeroed, x.src(as.Lhs[0]))
+			case "uint(len(" + ammos + "))":
+				goLength = x.src(as.Lhs[0])
+			}
+		}
+	}
+	if len(zeroed) == 2 {
+		inc := ""
+		ast.Inspect(loop.Body, func(n ast.Node) bool {
+			if id, ok := n.(*ast.IncDecStmt); ok && id.Tok == token.INC && inc == "" {
+				inc = x.src(id.X)
+			}
+			return true
+		})
+		switch inc {
+		case zeroed[0]:
+			goAmmoNum, goPassNum = zeroed[0], zeroed[1]
+		case zeroed[1]:
+			goAmmoNum, goPassNum = zeroed[1], zeroed[0]
+		}
+	}
+	for _, s := range loop.Body.List {
+		if as, ok := s.(*ast.AssignStmt); ok && as.Tok == token.DEFINE && len(as.Lhs) == 1 && len(as.Rhs) == 1 {
+			if be, ok := as.Rhs[0].(*ast.BinaryExpr); ok && be.Op == token.REM {
+				goI = x.src(as.Lhs[0])
+			}
+		}
+	}
+	x.vars = map[string]string{
+		passes: "passes", limit: "limit", goAmmoNum: "ammoNum", goPassNum: "passNum", goLength: "length", goI: "i",
+		"uint(len(" + ammos + "))": "length",
 	}
 	// before the loop: length := uint(len(ammos)); if length == 0 { return ErrNoAmmo }; ammoNum := uint(0); passNum := uint(0)
 	var pre []ast.Stmt
@@ -776,7 +819,7 @@ func (x *provloopsPl) replayLoop(fd *ast.FuncDecl, name, passes, limit, ammos, s
 	}
 	skipPre := func(s string) bool {
 		return strings.HasPrefix(s, "const op") || s == "p.Deps = deps" || strings.HasPrefix(s, "defer func()") ||
-			s == "length := uint(len("+ammos+"))"
+			s == goLength+" := uint(len("+ammos+"))"
 	}
 	preG := &provloopsGuardCtx{ret: x.retSentinel("some "), skip: skipPre, fall: func(ind string) string {
 		return ind + "(none : Option RunRes)"
@@ -785,14 +828,14 @@ func (x *provloopsPl) replayLoop(fd *ast.FuncDecl, name, passes, limit, ammos, s
 	var preGuards []ast.Stmt
 	for _, s := range pre {
 		src := x.src(s)
-		if src == "ammoNum := uint(0)" || src == "passNum := uint(0)" {
+		if src == goAmmoNum+" := uint(0)" || src == goPassNum+" := uint(0)" {
 			continue
 		}
 		preGuards = append(preGuards, s)
 	}
 	init0 := 0
 	for _, s := range pre {
-		if src := x.src(s); src == "ammoNum := uint(0)" || src == "passNum := uint(0)" {
+		if src := x.src(s); src == goAmmoNum+" := uint(0)" || src == goPassNum+" := uint(0)" {
 			init0++
 		}
 	}
@@ -848,26 +891,29 @@ func provloopsShortPath(p string) string {
 
 // fullScanLoop: body of the loop of runFullScan.
 func (x *provloopsPl) fullScanLoop(fd *ast.FuncDecl) string {
-	x.vars = map[string]string{
-		"p.Limit": "limit", "ammoNum": "ammoNum", "passes != nil": "True", "passes.PassNum()": "passNum", "err": "errV",
-	}
 	loop := provloopsForBody(fd)
 	if loop == nil || loop.Cond != nil || loop.Init != nil || loop.Post != nil {
 		return x.fail(fd, "no plain `for { … }` loop")
 	}
-	// before the loop: ammoNum := uint(0); passes, _ := p.Decoder.(passCounter)
+	// before the loop: <counter> := uint(0); <pc>, _ := p.Decoder.(passCounter) — the locals by their role, whatever they are called
 	n0 := false
+	goAmmoNum, goPasses := "ammoNum", "passes"
 	for _, s := range fd.Body.List {
 		if s == ast.Stmt(loop) {
 			break
 		}
-		switch x.src(s) {
-		case "ammoNum := uint(0)":
-			n0 = true
-		case "passes, _ := p.Decoder.(passCounter)":
+		as, ok := s.(*ast.AssignStmt)
+		switch {
+		case ok && as.Tok == token.DEFINE && len(as.Lhs) == 1 && len(as.Rhs) == 1 && x.src(as.Rhs[0]) == "uint(0)" && !n0:
+			n0, goAmmoNum = true, x.src(as.Lhs[0])
+		case ok && as.Tok == token.DEFINE && len(as.Lhs) == 2 && len(as.Rhs) == 1 && x.src(as.Lhs[1]) == "_" && x.src(as.Rhs[0]) == "p.Decoder.(passCounter)":
+			goPasses = x.src(as.Lhs[0])
 		default:
 			x.fail(s, "statement before the loop: %s", x.src(s))
 		}
+	}
+	x.vars = map[string]string{
+		"p.Limit": "limit", goAmmoNum: "ammoNum", goPasses + " != nil": "True", goPasses + ".PassNum()": "passNum", "err": "errV",
 	}
 	if !n0 {
 		x.fail(fd, "ammoNum is not initialised with uint(0)")
